@@ -2326,6 +2326,18 @@ func (c *Conn) notify(ctx context.Context, level alert.Level, desc alert.Descrip
 		}
 	}
 
+	shouldEncrypt := c.isHandshakeCompletedSuccessfully()
+	if state13, ok := c.state.(*dtlsstate.State13); ok && !shouldEncrypt &&
+		common.LocalVersion.Equal(protocol.Version1_3) && state13.TrafficKeys != nil {
+		// Once a DTLS 1.3 endpoint writes under the handshake keys its alerts
+		// are protected like every other record of that epoch (RFC 9147
+		// Section 4). A plaintext record with a non-zero epoch is not valid
+		// DTLS 1.3; the peer drops it and only learns of the failure by timeout.
+		if generation, found := state13.TrafficKeys.Write(common.LocalEpoch()); found && generation.Protection != nil {
+			shouldEncrypt = true
+		}
+	}
+
 	return c.writePackets(ctx, []*dtlsflight.Packet{
 		{
 			Record: &recordlayer.RecordLayer{
@@ -2339,7 +2351,7 @@ func (c *Conn) notify(ctx context.Context, level alert.Level, desc alert.Descrip
 				},
 			},
 			ShouldWrapCID: c.state.ShouldWrapConnectionID(),
-			ShouldEncrypt: c.isHandshakeCompletedSuccessfully(),
+			ShouldEncrypt: shouldEncrypt,
 		},
 	})
 }
